@@ -220,6 +220,15 @@ func (r *run) load(st *State, path string, t types.Type) Val {
 		}
 		return res
 	}
+	// a small array is a struct whose fields are named [0], [1], ... (the element path is path[i], as IndexAddr builds it)
+	if a, ok := t.Underlying().(*types.Array); ok && a.Len() <= 8 {
+		res := Struct{Fields: map[string]Val{}}
+		for i := int64(0); i < a.Len(); i++ {
+			k := fmt.Sprintf("[%d]", i)
+			res.Fields[k] = r.load(st, path+k, a.Elem())
+		}
+		return res
+	}
 	if r.env.InitMem != nil {
 		if v := r.env.InitMem(path, t); v != nil {
 			return v
@@ -232,12 +241,16 @@ func (r *run) store(st *State, path string, v Val) {
 	if s, ok := v.(Struct); ok {
 		// clear previous field values under path
 		for k := range st.Mem {
-			if strings.HasPrefix(k, path+".") {
+			if strings.HasPrefix(k, path+".") || strings.HasPrefix(k, path+"[") {
 				delete(st.Mem, k)
 			}
 		}
 		for k, fv := range s.Fields {
-			r.store(st, path+"."+k, fv)
+			if strings.HasPrefix(k, "[") {
+				r.store(st, path+k, fv)
+			} else {
+				r.store(st, path+"."+k, fv)
+			}
 		}
 		return
 	}
@@ -254,6 +267,14 @@ func zeroOf(t types.Type) Val {
 			return Int(0)
 		case u.Info()&types.IsString != 0:
 			return Const{constant.MakeString("")}
+		}
+	case *types.Array:
+		if u.Len() <= 8 {
+			res := Struct{Fields: map[string]Val{}}
+			for i := int64(0); i < u.Len(); i++ {
+				res.Fields[fmt.Sprintf("[%d]", i)] = zeroOf(u.Elem())
+			}
+			return res
 		}
 	case *types.Struct:
 		res := Struct{Fields: map[string]Val{}}
